@@ -17,6 +17,9 @@
 (***************************************************************************)
 EXTENDS Suites
 
+BrainpoolLegacy == {"brainpoolP256r1", "brainpoolP384r1", "brainpoolP512r1"}
+BrainpoolTLS13Only == {"brainpoolP256r1tls13", "brainpoolP384r1tls13", "brainpoolP512r1tls13"}
+
 Max(S) == CHOOSE x \in S : \A y \in S : y <= x
 MinN(a, b) == IF a < b THEN a ELSE b
 
@@ -134,8 +137,9 @@ MustConnect(cs, ss, certKey, certBits, certCurve, candidates) ==
               \* an ECDSA certificate must be on a curve the client enables
               /\ (certKey = "ecdsa" => certCurve \in cs.curves)
               \* TLS <= 1.2 ECDHE needs a common curve (for TLS 1.3 any common group will do: next conjunct)
-              /\ (v < 4 /\ Kex(t) \in {"ecdhe_rsa", "ecdhe_ecdsa"} => (cs.curves \cap ss.curves) # {})
-       /\ (v = 4 => ((cs.curves \cup cs.dhGroups) \cap (ss.curves \cup ss.dhGroups)) # {})
+              \* (the brainpool curves have two sets of code points: RFC 7027 for TLS <= 1.2, RFC 8734 for TLS 1.3)
+              /\ (v < 4 /\ Kex(t) \in {"ecdhe_rsa", "ecdhe_ecdsa"} => ((cs.curves \cap ss.curves) \ BrainpoolTLS13Only) # {})
+       /\ (v = 4 => (((cs.curves \cup cs.dhGroups) \cap (ss.curves \cup ss.dhGroups)) \ BrainpoolLegacy) # {})
        /\ (v < 4 /\ v > 0 => ~(cs.reqEms /\ ~ss.ems) /\ ~(ss.reqEms /\ ~cs.ems))
        /\ (v = 0 => ~cs.reqEms /\ ~ss.reqEms)                          \* SSLv3 has no extensions
        \* ... so the client cannot name its curves: predictable only if neither side uses ECDHE or both have the
